@@ -443,14 +443,29 @@ class LangServer:
                     )
                     # Setup renaming
                     if use_info.rename_map:
-                        rename_reversed = {
-                            value: key for (key, value) in use_info.rename_map.items()
-                        }
+                        # An entity is offered under every local name it has
+                        # here: its own (if listed) and each rename
                         for tmp_obj in tmp_list:
-                            var_list.append(tmp_obj)
-                            rename_list.append(
-                                rename_reversed.get(tmp_obj.name.lower(), None)
-                            )
+                            obj_name = tmp_obj.name.lower()
+                            local_names = [
+                                only_name
+                                for only_name in use_info.only_list
+                                if use_info.rename_map.get(only_name, only_name)
+                                == obj_name
+                            ]
+                            if not use_info.only_list:
+                                # Without ONLY a renamed entity is known by its
+                                # new name(s) alone
+                                local_names = [
+                                    key
+                                    for (key, value) in use_info.rename_map.items()
+                                    if value == obj_name
+                                ] or [obj_name]
+                            for local_name in sorted(local_names):
+                                var_list.append(tmp_obj)
+                                rename_list.append(
+                                    None if local_name == obj_name else local_name
+                                )
                     else:
                         var_list += tmp_list
                         rename_list += [None for _ in tmp_list]
